@@ -776,3 +776,40 @@ Proof.
       - apply fold_Rmax_ge_In. exact Hes. }
     split; [exact L | apply pow10_le_1; lra].
 Qed.
+
+(* ------------------------------------------------------------------ *)
+(* end-to-end corollaries                                               *)
+Lemma scale_r_scale : forall x a, scale_r R Rmult x a = R_scale a x.
+Proof. intros. unfold scale_r, R_scale, scale. apply map_ext. intro. ring. Qed.
+
+Lemma R_value_strip_arr : forall m e, R_value (Strip (MArr m) e) = MArr (R_scale (pow10 e) m).
+Proof. intros. cbn [R_value]. unfold R_mscale_r, mscale_r. rewrite scale_r_scale. reflexivity. Qed.
+
+(* end to end for a sliced contraction without sliced output index: if no slice meets a zero
+   factor, the gathered (mantissa, exponent) denotes the sum of the plain slice contractions *)
+Lemma sliced_sum_value : forall g g' prog slices ms r,
+  guard_ok g -> Forall homog_instr prog ->
+  Forall2 (fun arrs me => wf_prog R prog (seq 0 (length arrs)) = true /\
+                          R_core g true true prog arrs = Done (fst me) (Some (snd me))) slices ms ->
+  R_gather_sum (map (fun me => Strip (MArr (fst me)) (snd me)) ms) = Some r ->
+  exists ps, Forall2 (fun arrs p => R_core g' false false prog arrs = Done p None) slices ps /\
+             match ps with
+             | [] => False
+             | p :: rest => R_value r = fold_left R_madd (map (fun x => MArr x) rest) (MArr p)
+             end.
+Proof.
+  intros g g' prog slices ms r Hg Hh HF Hr.
+  exists (map (fun me => R_scale (pow10 (snd me)) (fst me)) ms). split.
+  - clear Hr. induction HF as [|arrs me slices ms [Hwf Hrun] HF IH]; cbn [map]; constructor.
+    + destruct (strip_value_cz g g' prog arrs (fst me) (snd me) Hg Hh Hwf Hrun) as [H _]. exact H.
+    + exact IH.
+  - destruct ms as [|me ms]; [discriminate|]. cbn [map] in *.
+    rewrite (gather_sum_value _ _ _ Hr). rewrite R_value_strip_arr. f_equal.
+    rewrite !map_map. apply map_ext. intros [m e]. cbn [fst snd]. apply R_value_strip_arr.
+Qed.
+
+(* interface._wrap_strip_exponent_final: (fn(x), 0.0) denotes fn(x) *)
+Lemma single_term_value : forall u x, R_value (single_term_stripped R R 0 u x) = MArr (u x).
+Proof.
+  intros. unfold single_term_stripped. rewrite R_value_strip_arr, pow10_0, R_scale_1. reflexivity.
+Qed.
